@@ -37,6 +37,24 @@ def tree_digest(root):
     return h.hexdigest()[:24]
 
 
+def tree_listing(root):
+    """{relative path: content hash} of what tree_digest looks at."""
+    out = {}
+    for dirpath, dirs, files in os.walk(root):
+        dirs.sort()
+        rel = os.path.relpath(dirpath, root)
+        out[rel + "/"] = "dir"
+        for f in sorted(files):
+            if f in SKIP_NAMES or f.endswith(".log") or f.startswith("msg-"):
+                continue
+            try:
+                with builtins.open(os.path.join(dirpath, f), "rb") as fh:
+                    out[os.path.join(rel, f)] = hashlib.sha256(fh.read()).hexdigest()[:12]
+            except OSError:
+                out[os.path.join(rel, f)] = "?"
+    return out
+
+
 class _WFile:
     """Wrapper around a file opened for writing by main."""
 
